@@ -280,7 +280,7 @@ CLAIM = {
 }
 
 
-def rule_flags(facts):
+def rule_flags(facts, rule="C06-FLAGS"):
     """per-batch match flags. A right (probe-side) batch gets one flag per row; rows whose flag is still false after the batch
     was fully probed are emitted NULL-padded. The flag vectors live in partition state and are reused for the next batch, so
       (a) hash join: a `Vec<bool>::resize(n, false)` of a join state field (which keeps old elements) is dominated by a
@@ -288,7 +288,7 @@ def rule_flags(facts):
       (b) nested-loop join: every path from MatchTracker::right_outer_result (flush for this batch) to a successful return
           passes MatchTracker::reset on the same tracker."""
     from .mir import Fn, op_const
-    r = RuleResult("C06-FLAGS", "per-batch right-match flags are cleared before they are reused for the next batch", floor=2)
+    r = RuleResult(rule, "per-batch right-match flags are cleared before they are reused for the next batch", floor=2)
 
     def place_key(fn, op, at):
         o = fn.origin(op, at=at, through_calls=("DerefMut>::deref_mut", "Deref>::deref"))
